@@ -1640,6 +1640,19 @@ def layout_battery():
         for cm in (" # the last row", "#1 2 3", " # 3"):
             b.append(sc(name, layout_render(lines, last_eol=False), layout_render(lines[:-1] + [lines[-1] + [cm]], "plain", last_eol=False).replace(" " + cm, cm),
                         "comment %r on the last line, no newline at the end" % cm))
+        if name == "literals":
+            # eighth round: `0X` / `0x` / `0b` without digits are two tokens (the literal 0 and a name), with or without a blank
+            for base_row, var_row in (("0 X 1", "0X 1"), ("0 x 1", "0x 1"), ("1 0 X", "1 0X"), ("0 X X", "0X X"), ("0 X 0", "0X 0")):
+                b.append(Scenario(LAYOUT_HEADER + "\n" + var_row + "\n", LAYOUT_SIGNALS, default_answer=[0], max_rows=50,
+                                  expect={"base": LAYOUT_HEADER + "\n" + base_row + "\n", "line_map": None},
+                                  note="literals: integer literals `%s` written as `%s` (no blank between the literal 0 and X)" % (base_row, var_row)))
+            # a bits() count in every radix (eight one-bit inputs)
+            s8 = [("in", "I%d" % i, 1, 0) for i in range(8)]
+            h8 = " ".join(x[1] for x in s8)
+            for cnt in ("010", "0x8", "0b1000", "0X08", "0B01000"):
+                b.append(Scenario("%s\nbits(%s, 165)\nbits(%s, 90)\n" % (h8, cnt, cnt), s8, max_rows=50,
+                                  expect={"base": "%s\nbits(8, 165)\nbits(8, 90)\n" % h8, "line_map": None},
+                                  note="literals: integer literals - bits count 8 written as %s" % cnt))
         if name in ("literals", "digit-strings", "control", "calls", "rejected-literal", "rejected-literal-2"):
             # sixth round: every literal in a radix of its own (cycling), so that one program holds equal digit strings
             # with different meanings: 10, 0x10, 0b10, 010
